@@ -1,6 +1,7 @@
 import Driver.Basic
 import Driver.StorageOps
 import Driver.LocationOps
+import Driver.StageOps
 open Lean Ts.Drv
 
 namespace Ts.Drv
@@ -8,7 +9,8 @@ namespace Ts.Drv
 /-- All registered op handlers; first match wins. -/
 def handlers : List Handler := [
   StorageOps.handle,
-  LocationOps.handle
+  LocationOps.handle,
+  StageOps.handle
 ]
 
 def dispatch (line : String) : Json :=
